@@ -96,6 +96,14 @@ class Gen:
                     size = rng.choice([0, 1, 4, 16, rng.randrange(0, 40)])
                     init = rng.randrange(0, size + 1)
                     contents = bytes(rng.getrandbits(8) for _ in range(init))
+                    r0 = rng.random()
+                    if r0 < 0.15:       # a zero-filled (.bss-like) interval
+                        contents = bytes(init)
+                    elif r0 < 0.25 and init:    # zeros at either end
+                        k = rng.randrange(1, init + 1)
+                        contents = (contents[:init - k] + bytes(k)
+                                    if rng.random() < 0.5
+                                    else bytes(k) + contents[k:])
                     addr = rng.choice([None, 0, 2**64 - 1, 4096,
                                        rng.getrandbits(40)])
                     x = g.ByteInterval(address=addr, size=size,
